@@ -167,7 +167,9 @@ impl Transformation<String> {
     // NOTE: meta_var in transform always starts with `$`, for now
     let s = self.source();
     // the source is validated later by `parse`: do not slice blindly here
+    // `$$VAR` (a capture that may be an unnamed node) names the variable VAR too
     s.strip_prefix("$$$")
+      .or_else(|| s.strip_prefix("$$"))
       .or_else(|| s.strip_prefix('$'))
       .unwrap_or(s)
   }
